@@ -82,11 +82,12 @@ TRUSTED = [
     "independence of a call from earlier / concurrent calls holds for the model by construction (pure functions of "
     "the arguments); the `conc` cases check it on the real code",
     "caller operations on the yielded deque: collections.deque(maxlen) semantics of append / appendleft / pop / popleft / "
-    "clear / extend / del / insert / item assignment / rotate / reverse incl. their IndexError cases are modelled "
-    "(DqOp.apply), not verified; for hop < size and length-changing operations the spec mutSpecG is tied by the run, its "
-    "equality with the model is PENDING (proved: hop >= size for arbitrary operations, all hops for length-preserving ones)",
+    "clear / extend / del / insert / item assignment (indices of either sign) / rotate / reverse incl. their IndexError cases are modelled "
+    "(DqOp.apply), not verified; what they do to the following blocks is proved for every operation and every hop "
+    "(blocks_mut_any_eq_spec for hop <= size, blocks_mut_any_hop_ge_size for hop >= size)",
     "Python's argument binding (ALV.C08.bind), the numeric tower as far as blocks uses it (int/bool exact in Int, float / "
-    "Fraction in exact Rat: the generator draws only floats whose arithmetic is exact; xrange / deque(maxlen) accept only "
+    "Fraction in exact Rat: the generator draws only finite floats whose arithmetic is exact; inf / -inf / nan hops in XRat = "
+    "the rationals with the three non-finite values and IEEE comparison rules; xrange / deque(maxlen) accept only "
     "objects with __index__; Py_ssize_t limit 2^63-1) are modelled, not verified",
     "the generator protocol after the end (further next() give StopIteration), the identity of the yielded deque and the "
     "type of the result (generator / Stream) are checked on the real code as properties of the observation, not modelled",
@@ -96,7 +97,10 @@ TRUSTED = [
 ASSUMPTIONS = [
     "the property's quantifier is size >= 1 and hop >= 1 of an int spelling; what the code does outside it (size 0 / None / "
     "negative / float / huge, hop <= 0 / float / Fraction / not a number) is modelled exactly and tied too (entry `call`)",
-    "hop = inf / nan, and floats whose arithmetic rounds (e.g. 0.1), are outside the model and the generator",
+    "finite float hops whose ROUNDED index lands on a whole number are outside the model and the generator: the model computes "
+    "size - hop and idx + 1 exactly; witness on the real code: blocks(range(12), 5, 1.0000000000000002) gives the 8 blocks of "
+    "hop 1 (5 - (1 + 2^-52) rounds to 4.0 = last_idx) where the exact table (hop_table) says block 0 only; floats that round "
+    "without ever producing a whole index (0.1, 0.3, 2.7, 1e-17, -0.1) ARE generated and must agree with the exact model",
     "2^6 < size < 2^63 with a padded block due is excluded from model and generator (the code would append ~size pads); "
     "hop <= 0 on an ENDLESS source never returns (theorem call_hop_nonpos: no second block however long the source): the "
     "generator uses sources that fail after many items instead",
@@ -106,16 +110,16 @@ MANIFEST = {
     "text": "Lean 4 theorems about an executable, code-shaped model of blocks / zero_pad (both loops, idx bookkeeping, padded "
             "tail) for all lengths / sizes / hops / pad values / item types, and about the generator's histories: every "
             "prefix of the input (sources that fail or end anywhere), the number of items pulled when each block is handed "
-            "out, a caller that edits the yielded deque in place (length-preserving: all hops; any operation incl. failing "
-            "ones: hop >= size), live sources that follow the caller; and about the CALL: defaults (hop=None is size, padval "
+            "out, a caller that changes the yielded deque in any way (any operation incl. length-changing and failing "
+            "ones, every hop), live sources that follow the caller; and about the CALL: defaults (hop=None is size, padval "
             "omitted is 0.), positional = keyword binding, Stream.blocks(*a, **k) = blocks(iter(s), *a, **k), every spelling "
             "of size / hop / left / right (which error and when: refused sizes before anything is pulled, a whole float hop "
-            "= the int hop up to a TypeError in place of a padded block that follows a complete one, hop <= 0, size 0); tied "
+            "= the int hop up to a TypeError in place of a padded block that follows a complete one, hop <= 0, size 0, non-whole "
+            "and non-finite float hops: the whole table blocksCall_eq_spec); tied "
             "to /repo by a differential run (impl vs model vs spec) on every check",
     "note": "deque(maxlen), the generator protocol (a source exception passes through the frame unchanged) and Stream.blocks = "
-            "blocks(iter(s)), Python's argument binding and deque operations are modelled, not verified; PENDING (tied by the "
-            "run only): non-whole float / Fraction hops, length-changing caller operations when hop < size; inf / nan hops "
-            "are outside",
+            "blocks(iter(s)), Python's argument binding and deque operations are modelled, not verified; no PENDING statement "
+            "is left; finite float hops whose index arithmetic rounds in binary64 (e.g. 1 + 2^-52, 0.1 on long inputs) are outside",
     "technique": "Lean 4 machine-checked proof over an executable model + differential correspondence with observing / failing "
                  "sources, caller-edit and live-source histories, Stream subclasses overriding __iter__, interleaved generators "
                  "and call histories run in pristine forked processes (state-between-calls is reported with the explicit history)",
@@ -515,6 +519,9 @@ SIZE_SPELL = [0, 1, 2, 3, {"b": True}, {"b": False}, {"isub": 2}, -1, -3, None, 
 HOP_SPELL = [None, 1, 2, 3, 5, 0, -1, -4, {"b": True}, {"b": False}, {"isub": 2}, "a", 10 ** 30]
 
 
+NONFIN = [{"f": "inf"}, {"f": "-inf"}, {"f": "nan"}]        # float('inf'), float('-inf'), float('nan')
+
+
 def _rat_spellings(rng):
     out = []
     for v in (1, 2, 3, 4, 0, -1, -2, Fraction(1, 2), Fraction(3, 2), Fraction(5, 2), Fraction(7, 2), Fraction(-1, 2),
@@ -523,6 +530,10 @@ def _rat_spellings(rng):
         out.append({"fr": str(Fraction(v))})
     out.append({"fr": "1/3"})
     out.append({"fr": "7/3"})
+    # floats whose index arithmetic ROUNDS in binary64 but never lands on a whole number: the exact model (the float's exact
+    # value as a rational) must still agree with the code, which rounds
+    for v in (0.1, 0.3, 2.7, 1e-17, -0.1):
+        out.append(_fnum(v))
     return out
 
 
@@ -561,8 +572,8 @@ def _call_cases(rng, quick, scale):
             cases.append({"entry": "zcall", "fn": "zero_pad", "pos": pos, "kw": kw, "xs": [1, 2], "ending": "stop", "src": "list"})
         # 2. spellings of size x hop (every pair), short and long inputs, ending stop / fail
         rats = _rat_spellings(rng)
-        for size in SIZE_SPELL:
-            for hop in HOP_SPELL + rats[::(3 if quick else 1)]:
+        for size in SIZE_SPELL + NONFIN[:1]:
+            for hop in HOP_SPELL + rats[::(3 if quick else 1)] + NONFIN:
                 for n in (0, 1, 2, 3, 4, 7):
                     if not _safe_call(size, hop, n):
                         continue
@@ -575,7 +586,7 @@ def _call_cases(rng, quick, scale):
                     cases.append(_mk_call(fn, shape, {"size": size, "hop": hop}, list(range(n)), ending, src))
         # 3. float / Fraction / non-positive hops: every length around the block boundaries
         for size in (1, 2, 3, 4):
-            for hop in rats + [0, -1, -2, -5]:
+            for hop in rats + [0, -1, -2, -5] + NONFIN:
                 for n in range(0, (9 if quick else 14)):
                     if quick and (n + size) % 2 and isinstance(hop, dict) and "fr" in hop:
                         continue
@@ -594,7 +605,7 @@ def _call_cases(rng, quick, scale):
                                           ending, src, again=True))
         # 5. zero_pad spellings
         zsp = [0, 1, 2, -1, -7, {"b": True}, {"b": False}, {"isub": 2}, _fnum(1), _fnum(0), _fnum(Fraction(3, 2)), {"fr": "1"},
-               {"fr": "1/2"}, None, "a"]
+               {"fr": "1/2"}, None, "a"] + NONFIN[::2]
         for l in zsp:
             for r in zsp:
                 for n in (0, 2):
@@ -624,7 +635,7 @@ def _ops(rng, size, nblocks):
         ops = []
         for _ in range(rng.choice([0, 1, 1, 2, 3])):
             k = rng.choice(["append", "appendleft", "pop", "popleft", "clear", "extend", "del", "insert", "set", "rot", "rev",
-                            "pop", "popleft", "append"])
+                            "pop", "popleft", "append", "seti", "deli", "inserti"])
             v = rng.choice(["X", "Y", -7, None, {"f": "1.5"}])
             if k in ("append", "appendleft"):
                 ops.append([k, v])
@@ -638,6 +649,10 @@ def _ops(rng, size, nblocks):
                 ops.append([k, rng.randrange(size + 2), v])
             elif k == "set":
                 ops.append([k, rng.randrange(size + 1), v])
+            elif k in ("seti", "inserti"):       # an index of either sign, in and out of range
+                ops.append([k, rng.randint(-size - 2, size + 1), v])
+            elif k == "deli":
+                ops.append([k, rng.randint(-size - 2, size + 1)])
             elif k == "rot":
                 ops.append([k, rng.randint(-size - 1, size + 1)])
             else:
@@ -669,7 +684,7 @@ def _random_call(rng):
     elif v < .5:
         hv = rng.choice([0, -1, -hop, {"b": False}])
     elif v < .65:
-        hv = rng.choice([_fnum(Fraction(2 * hop + 1, 2)), {"fr": "%d/3" % (3 * hop + 1)}, _fnum(Fraction(-1, 2)), _fnum(-hop)])
+        hv = rng.choice([_fnum(Fraction(2 * hop + 1, 2)), {"fr": "%d/3" % (3 * hop + 1)}, _fnum(Fraction(-1, 2)), _fnum(-hop)] + NONFIN)
     else:
         hv = hop
     sv = _spell(rng, size, ("int", "int", "isub", "bool")) if rng.random() < .8 else rng.choice([0, {"b": False}, -1, _fnum(size), None, "s"])
@@ -1256,8 +1271,12 @@ def _apply_op(blk, op, reg):
         blk.extend([untag(v, reg) for v in op[1]])
     elif k == "del":
         del blk[op[1]]
-    elif k == "insert":
+    elif k == "insert" or k == "inserti":
         blk.insert(op[1], untag(op[2], reg))
+    elif k == "seti":
+        blk[op[1]] = untag(op[2], reg)
+    elif k == "deli":
+        del blk[op[1]]
     else:
         raise ValueError("op " + k)
 
@@ -1812,6 +1831,7 @@ def tally(eng, c, io):
             sp = ("omitted" if j == "omitted" else "None" if j is None else "str" if isinstance(j, str) else
                   ("int" + ("<0" if j < 0 else "=0" if j == 0 else ">=2^63" if j >= 2 ** 63 else ">10^6" if j > 10 ** 6 else ">0")) if isinstance(j, int) else
                   "intsub" if "isub" in j else "bool" if "b" in j else
+                  "float(%s)" % j["f"] if "f" in j and "q" not in j else
                   ("float" if "f" in j else "Fraction") + ("(whole)" if "/" not in j.get("q", j.get("fr", "")) else "(not whole)"))
             eng.count("%s_%s_spelling" % (e, nm), sp)
         pv = given.get(names[3], (None, "omitted"))[1]
